@@ -159,6 +159,11 @@ class Program:
                 self._load(modname, path, rel)
         for modname, path in extra_files:
             self._load(modname, path, os.path.relpath(path, "/verif") if path.startswith("/verif") else path)
+        # helpers new to the reviewed inventory are expanded at their call sites before anything is indexed (sa/normalise.py)
+        from .normalise import Expander
+        self.expanded_into: Dict[str, Set[str]] = {}
+        if not os.environ.get("VERIF_NO_EXPAND"):
+            self.expanded_into = Expander(self.modules).run().expanded_into
         for m in self.modules.values():
             self._index_module(m)
         for c in self.classes.values():
